@@ -518,6 +518,12 @@ func (j *Judge) Maintain(c *Context, res *drummer.VerifSchedResult, exhausted bo
 			if !restoreFor[[2]uint64{sid, rid}] {
 				j.fail("C01", "no_silent_stall", "restorable-member-not-restored", fmt.Sprintf("shard %d: failed member %d is on a live NodeHost that lists its log, the shard is handled by the restore pass (healthy %d, restorable %d, waiting %d, quorum %d), but the round has no restore request for it", sid, rid, len(k.ok), len(restorable), len(k.waiting), quorum))
 				j.fail("C12", "restore_complete", "restorable-member-not-restored", fmt.Sprintf("shard %d: no restore request for the restorable member %d", sid, rid))
+				if m := v.Replicas[rid]; m != nil {
+					if h := c.NodeHostImage.Nodehosts[m.Address]; h != nil {
+						// C05: a NodeHost that reported more recently than the timeout is eligible for restore
+						j.fail("C05", "recent_host_eligible", "recent-host-not-eligible-for-restore", fmt.Sprintf("shard %d member %d: NodeHost %s reported %d logical seconds ago (timeout %d) and lists the replica's log, yet it was not used for the restore", sid, rid, m.Address, c.Tick-h.Tick, TTL))
+					}
+				}
 			}
 		}
 	}
